@@ -19,7 +19,7 @@ from ..monitors import ModeWatch, EvalTracer
 
 glom = env.bind()
 from glom import (T, S, Auto, Fill, Match, Pipe, Coalesce, Switch, Val, Spec, Call, Assign, And, Or, Check, M, Invoke,  # noqa: E402
-                  GlomError, SKIP, Iter, glom as G)
+                  GlomError, SKIP, Iter, Optional, glom as G)
 from glom.grouping import Group  # noqa: E402
 
 META = {
@@ -406,6 +406,7 @@ def arg_positions(lit):
         ('Switch-default', Switch([(M == 'never', Val(1))], default=lit), lambda r: r),
         ('Check-default', Check(type=str, default=lit), lambda r: r),
         ('Assign-value', (Assign(T['box'], lit), T['box']), lambda r: r),
+        ('Match-Optional-default', Match({Optional('zz_absent', default=lit): object, str: object}), lambda r: r['zz_absent']),
         # the destination does not exist yet: the value is still evaluated against the Assign's target
         ('Assign-value-missing-path', (Assign(T['newbox']['deep'], lit, missing=dict), T['newbox']['deep']), lambda r: r),
         ('Assign-value-missing-path-str', (Assign('nb.l1.l2', lit, missing=dict), 'nb.l1.l2'), lambda r: r),
